@@ -187,6 +187,30 @@ for _p in ("C02", "C03", "C04"):
 # the result set of a lookup IS the K-nearest container: C02 also runs the container's engine
 PROPS["C02"]["engines"] = ["traversal", "metric"]
 PROPS["C02"]["rule"] = TRAV_RULE + " ; metric engine: K-nearest push sequences with equal-id / equal-address / equal-distance ties (see C18)"
+
+# engine `api` (srv_api*.go, RunApi.v / ApiProofs.v): the exported API used from several goroutines at once
+API_TRUSTED = ["api engine: Go scheduler / sync.RWMutex; overlap is provoked (callers queued behind a packet handler parked in the OnQuery "
+               "hook, spin barriers, a gate in front of the bundled peer store), the checks hold under every interleaving: tables are "
+               "compared at rest (two equal snapshots around the API calls), candidates are 'certainly offered' only once the offering "
+               "call has returned, stores after the per-announce goroutines have ended (losses are re-asked after 0.3 s and 1.5 s)"]
+PROPS["C05"]["engines"] = ["server", "api"]
+PROPS["C05"]["rule"] += (" ; api engine: overlapping AddNode / AddNodesFromFile / inbound queries / responses to the node's own pings / readers "
+                         "(Nodes, NumNodes, Stats, WriteStatus) on one Server, x {same node from 2, 4, 8 callers; fresh nodes, one address under two ids, "
+                         "one id at two addresses, 4-byte and v4-mapped spelling, own id, zero id (AddNode pings), read-only senders} x {queued behind a "
+                         "parked handler; spin barrier}; entries made bad by ping time-outs (hook and a real TableMaintainer with an 8 ms resend delay), "
+                         "aged, made good; after every round the table at rest is accepted or rejected by RunApi.ra_accept against the candidates "
+                         "offered (`atable` lines) and the oracles state duplicate (id, address), bucket = shared prefix, capacity, own / zero id, "
+                         "address index, NumNodes = Stats().Nodes = entries, GoodNodes, Nodes() = non-bad entries, WriteStatus; a line is distinct by "
+                         "its candidates and table")
+PROPS["C05"]["trusted"] = PROPS["C05"]["trusted"] + API_TRUSTED
+PROPS["C11"]["engines"] = ["server", "api"]
+PROPS["C11"]["rule"] += (" ; api engine: bursts of first announces for fresh infohashes: 2-9 concurrent InMemory.AddPeer calls per infohash (4-byte / IPv6 / "
+                         "v4-mapped hosts, several infohashes at once, zero-value stores, one host twice, a second burst replacing endpoints, a reader "
+                         "alongside) and accepted announce_peer datagrams (implied_port on/off) to a Server whose store is the bundled InMemory, plain "
+                         "(datagrams queued at the socket) or behind a gate releasing the per-announce goroutines together; at rest GetPeers (`astore` "
+                         "lines) and get_peers from IPv4 / IPv6 requesters with want -, n4+n6, n6 (`apeers` lines) equal the fold of add_peer over the "
+                         "accepted announces (+ BEP 32 filter); oracles: every accepted announcer returned, nothing unannounced, one listing per host, token")
+PROPS["C11"]["trusted"] = PROPS["C11"]["trusted"] + API_TRUSTED
 PROPS["C16"]["rule"] += (" ; write faults (lookups_fault.go): WriteTo failing per destination and query kind (a candidate / starting node / every IPv6 "
                          "address / listed ghosts unwritable, only the announce_peer after a served get_peers, short writes, the i-th write of the run, "
                          "every write), alone and with StopTraversing / Close / slow consumer / repetitions: a failed query write is an issued query "
